@@ -303,6 +303,83 @@ func genC18() {
 	}
 	g.def("keyname_forbidden", "string", coqStr(sep), "a key name containing this is rejected by parseRepositoryIndex")
 
+	// --- cachedPackage: the member named by the control section's datahash -------
+	fd = findFunc(implGo, "APK", "cachedPackage")
+	datSuffix, tarTrim := "", ""
+	var joinPos, hexPos, dataPos token.Pos
+	if fd != nil {
+		ast.Inspect(fd, func(n ast.Node) bool {
+			c, ok := n.(*ast.CallExpr)
+			if !ok {
+				return true
+			}
+			switch exprText(c.Fun) {
+			case "filepath.Join":
+				if len(c.Args) == 2 {
+					if b, ok := c.Args[1].(*ast.BinaryExpr); ok && b.Op == token.ADD && exprText(b.X) == "datahash" {
+						if s, ok := strLit(b.Y); ok {
+							datSuffix, joinPos = s, c.Pos()
+						}
+					}
+				}
+			case "hex.DecodeString":
+				if len(c.Args) == 1 && exprText(c.Args[0]) == "datahash" {
+					hexPos = c.Pos()
+				}
+			case "exp.PackageData":
+				if joinPos != token.NoPos && dataPos == token.NoPos {
+					dataPos = c.Pos()
+				}
+			case "strings.TrimSuffix":
+				if len(c.Args) == 2 && exprText(c.Args[0]) == "exp.PackageFile" {
+					if s, ok := strLit(c.Args[1]); ok {
+						tarTrim = s
+					}
+				}
+			}
+			return true
+		})
+	}
+	if datSuffix == "" || tarTrim == "" || hexPos == token.NoPos || dataPos == token.NoPos {
+		fail("%s: cachedPackage: filepath.Join(_, datahash+<lit>) / strings.TrimSuffix(exp.PackageFile, <lit>) / hex.DecodeString(datahash) / exp.PackageData() not all found", implGo)
+	}
+	g.def("cached_dat_suffix", "string", coqStr(datSuffix), "cachedPackage: the data member is <cacheDir>/<datahash><this>")
+	g.def("cached_tar_trim", "string", coqStr(tarTrim), "cachedPackage: the uncompressed tar is the member's name without this suffix")
+	g.def("cached_hex_before_data", "bool", fmt.Sprint(joinPos < hexPos && hexPos < dataPos), "cachedPackage decodes the datahash as hexadecimal (error = cache miss) after joining it and before exp.PackageData() may create the tar")
+
+	// --- dirFS: which side a mutating method asks first --------------------------
+	// true = a call into os/unix on filepath.Join(f.base, ..) comes (textually) before the first f.overrides call
+	var order []string
+	for _, m := range []string{"WriteFile", "MkdirAll", "Mkdir", "Symlink", "Link", "Chmod", "Chown", "Chtimes", "Mknod", "Create", "OpenFile", "Remove"} {
+		md := findFunc("pkg/apk/fs/rwosfs.go", "dirFS", m)
+		var hostPos, ovPos token.Pos
+		if md != nil {
+			ast.Inspect(md, func(n ast.Node) bool {
+				c, ok := n.(*ast.CallExpr)
+				if !ok {
+					return true
+				}
+				ft := exprText(c.Fun)
+				if (strings.HasPrefix(ft, "os.") || strings.HasPrefix(ft, "unix.")) && hostPos == token.NoPos {
+					for _, a := range c.Args {
+						if strings.Contains(exprText(a), "f.base") || exprText(a) == "target" {
+							hostPos = c.Pos()
+						}
+					}
+				}
+				if strings.HasPrefix(ft, "f.overrides.") && ovPos == token.NoPos {
+					ovPos = c.Pos()
+				}
+				return true
+			})
+		}
+		if hostPos == token.NoPos || ovPos == token.NoPos {
+			fail("pkg/apk/fs/rwosfs.go: dirFS.%s: host call / overlay call not found", m)
+		}
+		order = append(order, fmt.Sprintf("(%s, %v)", coqStr(m), hostPos < ovPos))
+	}
+	g.def("dirfs_host_first", "list (string * bool)", "["+strings.Join(order, "; ")+"]", "dirFS methods: the os call on filepath.Join(f.base, name) comes before the first call on the in-memory tree")
+
 	// --- maxLinks of the two in-memory trees ----------------------------------
 	for _, it := range [][2]string{{"pkg/apk/fs/memfs.go", "memfs_max_links"}, {"pkg/tarfs/fs.go", "tarfs_max_links"}} {
 		v, ok := intLit(findValue(it[0], "maxLinks"))
